@@ -172,6 +172,14 @@ def do_check(mod, a):
         print("KNOWN-FINDING: property=%s %s [%d instance(s) this run; class %s]" % (mod.PROP, k.get("what", ""), n, cls))
 
     wall_s = time.monotonic() - t0
+    from .util import digest as _digest
+    batch_digest = _digest({"keys": sorted(agg["keys"]), "stats": agg["stats"], "runs": agg["runs"], "evals": agg["evals"],
+                            "events": agg["events"], "classes": sorted(by_class), "sched": sorted(agg.get("sched", [])),
+                            "event_logs": sorted(agg.get("evdigs", []))})
+    agg["extra"]["event_log_digests_compared_in_batch_digest"] = len(agg.get("evdigs", []))
+    agg["extra"]["batch_digest"] = batch_digest
+    if a.print_digests:
+        print("BATCH-DIGEST %s" % batch_digest)
     cov = build_coverage(mod, agg, tier, wall_s, truncated, workers, known_hit)
     if not a.no_evidence:
         core.write_evidence(mod.PROP, tier, seed, mod.LEVEL, cov, wall_s, unlisted, mod.ASSUMPTIONS if hasattr(mod, "ASSUMPTIONS") else [])
@@ -202,6 +210,8 @@ def merge(agg, st):
         agg["invalid"] += 1
     if st.get("sched_keys"):
         agg.setdefault("sched", set()).update(st["sched_keys"])
+    if st.get("evdigs"):
+        agg.setdefault("evdigs", []).extend(st["evdigs"])
     for k, v in st.get("stats", {}).items():
         agg["stats"][k] = agg["stats"].get(k, 0) + v
     for s in st.get("samples", []):
